@@ -21,11 +21,14 @@ package ledgerstore
 //@   property C20
 //@   ensures sqlSafe(ret0)
 
+// (inline: callers see the closure itself, so bun's Apply runs it on their query)
 //@ func ledgerstore.filterPIT
 //@   property C20
+//@   inline
 //@   requires sqlSafe(column)
 //@ func ledgerstore.filterPIT$1
 //@   property C20
+//@   inline
 //@   captures sqlSafe(column)
 
 // ---- the WHERE text computed from the client's filter -----------------------------
